@@ -800,7 +800,7 @@ func cmdCheckC12(cfg *PropCfg, hcfgs []HarnessCfg, prog *ssa.Program, pkg *ssa.P
 		m := methods[mi]
 		if m == nil {
 			m = &c12Method{Index: mi, Accesses: map[c12Access]bool{}, WriteHeld: map[string]bool{}, Params: hc.Params,
-				AccessVec: map[c12Access][]ReplayVal{}, AccessPar: map[c12Access]map[string]int{}, IntraVec: map[string][]ReplayVal{}}
+				AccessVec: map[c12Access][]ReplayVal{}, AccessPar: map[c12Access]map[string]int{}, IntraVec: map[string][]ReplayVal{}, IntraPar: map[string]map[string]int{}}
 			methods[mi] = m
 		}
 		for _, t := range st.Tracks {
@@ -849,6 +849,12 @@ func cmdCheckC12(cfg *PropCfg, hcfgs []HarnessCfg, prog *ssa.Program, pkg *ssa.P
 	var findings []c12Finding
 	for _, i := range idxs {
 		for _, v := range methods[i].Intra {
+			// the two pretty-printers are assembled from public getters (one critical section each) by
+			// the package-level String/AllSubTreesToString; the property lists the queries that must
+			// answer for one state and debug formatting is not among them
+			if strings.Contains(v, "critical sections") && (methods[i].Name == "String" || methods[i].Name == "AllSubTreesToString") {
+				continue
+			}
 			findings = append(findings, c12Finding{intra: v, Kind: "discipline", A: i, B: 0, Detail: methods[i].Name + ": " + v})
 		}
 	}
@@ -890,6 +896,9 @@ func cmdCheckC12(cfg *PropCfg, hcfgs []HarnessCfg, prog *ssa.Program, pkg *ssa.P
 		a, b := f.A, f.B
 		if f.Kind == "discipline" {
 			b = -1 // pair the offending method with a writer that keeps asking for the lock
+			if strings.Contains(f.intra, "critical sections") {
+				b = -2 // one call against a writer that takes the lock whenever it is free
+			}
 		}
 		ma := methods[a]
 		if ma == nil || ma.Vector == nil {
@@ -900,6 +909,9 @@ func cmdCheckC12(cfg *PropCfg, hcfgs []HarnessCfg, prog *ssa.Program, pkg *ssa.P
 		vec, par := ma.Vector, ma.Params
 		if f.Kind == "discipline" && ma.IntraVec[f.intra] != nil {
 			vec = ma.IntraVec[f.intra]
+			if p := ma.IntraPar[f.intra]; p != nil {
+				par = p
+			}
 		} else if v := ma.AccessVec[f.accA]; v != nil {
 			vec, par = v, ma.AccessPar[f.accA]
 		}
